@@ -1,4 +1,5 @@
 import AranyaV.Proofs.Conc.Mutex
+import AranyaV.Gen.ConcOrd
 /-!
 # C43 — The shared-memory mutex is exclusive and loses no wake-ups
 
@@ -40,6 +41,39 @@ theorem skeleton_matches :
     swapBeforeWait = true ∧ waitSetSleeping = true ∧ swapReturnsIfUnlocked = true ∧
     spinWhileUnlocked = true ∧ forPassiveSpin = true :=
   ⟨rfl, rfl, rfl, rfl, rfl, rfl, rfl, rfl, rfl, rfl, rfl, rfl⟩
+
+/-! ## memory orderings: the side condition of the sequentially consistent model -/
+
+/-- What each atomic access of the futex `sys_lock` / `sys_unlock` must *at least* be for the
+sequentially consistent reasoning of this file to apply (the step from this table to "SC
+reasoning is sound" is the unmechanised release/acquire (DRF-SC) argument — trusted base):
+
+* `sys_lock` fast-path `compare_exchange(UNLOCKED → LOCKED)`: success **Acquire** — it is the
+  observing read that takes the lock and is followed by the accesses to the protected data, so
+  it must synchronise with the previous holder's releasing `swap`; failure **Relaxed** — the
+  value only initialises the local `wait`.
+* spin `load`: **Relaxed** — a hint only; the `compare_exchange` after it does the acquiring.
+* spin `compare_exchange(UNLOCKED → wait)`: success **Acquire** (takes the lock), failure Relaxed.
+* `swap(SLEEPING)`: **Acquire** — it takes the lock when it returns UNLOCKED.  That the
+  unlocker's `swap(UNLOCKED)` and this swap see each other (no lost wake-up) needs no ordering:
+  both are read-modify-writes of the same word, totally ordered by coherence, and the kernel
+  re-reads the word inside `futex_wait`.
+* `sys_unlock` `swap(UNLOCKED)`: **Release** — the publishing write: everything the holder did
+  to the protected data must be visible to the next thread that acquires. -/
+def mutexOrdRoles : List OrdPair :=
+  [(.acquire, .relaxed), (.relaxed, .relaxed), (.acquire, .relaxed), (.acquire, .relaxed),
+   (.release, .relaxed)]
+
+/-- **The orderings written in `mutex.rs` are at least what their roles require**, and the set
+of atomic accesses is exactly the one that was classified (a new atomic access must be
+classified before the build passes).  A stronger ordering in the source passes; a weaker one
+(e.g. `Relaxed` on the unlock swap or on a lock CAS) makes this theorem fail. -/
+theorem orderings_sufficient :
+    AranyaV.Gen.ConcOrd.mutexShape =
+      ["sys_lock:key:cas", "sys_lock:key:load", "sys_lock:key:cas", "sys_lock:key:swap",
+       "sys_unlock:key:swap"] ∧
+    sufficient mutexOrdRoles AranyaV.Gen.ConcOrd.mutexOrds = true :=
+  ⟨rfl, by decide⟩
 
 /-! ## mutual exclusion -/
 
